@@ -5,7 +5,7 @@ use std::{
     mem,
     num::NonZeroU32,
     str::FromStr,
-    sync::Arc,
+    sync::{Arc, Mutex as StdMutex, MutexGuard, PoisonError},
 };
 
 #[cfg(feature = "tls")]
@@ -76,7 +76,15 @@ pub struct Session<T: Transport> {
     transport_rx: Arc<Mutex<T::RecvHandle>>,
     context: Context,
     last_message_id: rpc::MessageId,
-    requests: Arc<Mutex<HashMap<rpc::MessageId, OutstandingRequest>>>,
+    requests: Requests,
+}
+
+type Requests = Arc<StdMutex<HashMap<rpc::MessageId, OutstandingRequest>>>;
+
+fn lock_requests(
+    requests: &Requests,
+) -> MutexGuard<'_, HashMap<rpc::MessageId, OutstandingRequest>> {
+    requests.lock().unwrap_or_else(PoisonError::into_inner)
 }
 
 /// NETCONF session state container.
@@ -226,7 +234,7 @@ impl<T: Transport> Session<T> {
             client_capabilities,
             server_capabilities,
         );
-        let requests = Arc::new(Mutex::new(HashMap::default()));
+        let requests = Arc::new(StdMutex::new(HashMap::default()));
         Ok(Self {
             transport_tx,
             transport_rx,
@@ -278,14 +286,20 @@ impl<T: Transport> Session<T> {
         let message_id = self.last_message_id.increment();
         let request = O::new(&self.context, build_fn)
             .map(|operation| rpc::Request::new(message_id, operation))?;
+        // Register the request before sending it, and never hold the request map across an
+        // `.await`: a reader parks replies for other requests in the map, and must be able to do
+        // so without reaching a suspension point at which it could be dropped with a reply in hand.
         #[allow(clippy::significant_drop_in_scrutinee)]
-        match self.requests.lock().await.entry(message_id) {
+        match lock_requests(&self.requests).entry(message_id) {
             Entry::Occupied(_) => return Err(Error::MessageIdCollision { message_id }),
             Entry::Vacant(entry) => {
-                request.send(&mut *self.transport_tx.lock().await).await?;
                 _ = entry.insert(OutstandingRequest::Pending);
             }
         };
+        if let Err(err) = request.send(&mut *self.transport_tx.lock().await).await {
+            _ = lock_requests(&self.requests).remove(&message_id);
+            return Err(err);
+        }
         let requests = self.requests.clone();
         let rx = self.transport_rx.clone();
         Ok(Self::recv::<O>(message_id, requests, rx))
@@ -294,7 +308,7 @@ impl<T: Transport> Session<T> {
     #[tracing::instrument(skip(requests, rx), level = "debug")]
     async fn recv<O>(
         message_id: rpc::MessageId,
-        requests: Arc<Mutex<HashMap<rpc::MessageId, OutstandingRequest>>>,
+        requests: Requests,
         rx: Arc<Mutex<<T as Transport>::RecvHandle>>,
     ) -> Result<<O::Reply as IntoResult>::Ok, Error>
     where
@@ -307,13 +321,11 @@ impl<T: Transport> Session<T> {
             let mut rx_guard = rx.lock().await;
             tracing::trace!(?requests);
             tracing::debug!("checking for ready response");
-            if let Some(partial) = requests
-                .lock()
-                .await
+            let ready = lock_requests(&requests)
                 .get_mut(&message_id)
                 .ok_or(Error::RequestNotFound { message_id })?
-                .take()?
-            {
+                .take()?;
+            if let Some(partial) = ready {
                 tracing::debug!("found ready response");
                 let reply: rpc::Reply<O> = partial.try_into()?;
                 break reply.into_result();
@@ -321,9 +333,7 @@ impl<T: Transport> Session<T> {
             tracing::debug!("response to {message_id:?} not yet ready");
             let reply = rpc::PartialReply::recv(&mut *rx_guard).await?;
             #[allow(clippy::significant_drop_in_scrutinee)]
-            match requests
-                .lock()
-                .await
+            match lock_requests(&requests)
                 .get_mut(&reply.message_id())
                 .ok_or_else(|| Error::RequestNotFound {
                     message_id: reply.message_id(),
